@@ -72,6 +72,7 @@ fn main() {
         "cliclone" => cli::suite_cliclone(&out, seed, thorough, &mut st),
         "clirefuse" => cli::suite_clirefuse(&out, seed, thorough, &mut st),
         "clitrace" => cli::suite_clitrace(&out, seed, thorough, &mut st),
+        "clifault" => cli::suite_clifault(&out, seed, thorough, &mut st),
         "ioread" => http::suite_ioread(&out, seed, thorough, &mut st),
         "clone" => clone::suite_clone(&out, seed, thorough, &mut st),
         _ => {
